@@ -1113,3 +1113,62 @@ Qed.
 
 Lemma rejects_empty_text_lemma : rejected "".
 Proof. eexists. reflexivity. Qed.
+
+(** ** A size containing any character other than digits, sign, underscore, white space is not an integer *)
+
+Lemma int_digits_chars s : forall a p n, int_digits a p s = Some n ->
+  forall c, has_char c s = true -> is_digit c = true \/ (c =? "_")%char = true.
+Proof.
+  induction s as [|x r IH]; intros a p n H c Hc; [discriminate Hc|].
+  cbn [int_digits] in H. cbn [has_char] in Hc.
+  destruct (digit_val x) as [k|] eqn:Ed.
+  - apply orb_prop in Hc. destruct Hc as [Hc|Hc]; [|eapply IH; eassumption].
+    apply Ascii.eqb_eq in Hc. subst c. left. unfold is_digit. rewrite Ed. reflexivity.
+  - destruct ((x =? "_")%char && p) eqn:Eu; [|discriminate H].
+    apply andb_prop in Eu. destruct Eu as [Eu _].
+    apply orb_prop in Hc. destruct Hc as [Hc|Hc]; [|eapply IH; eassumption].
+    apply Ascii.eqb_eq in Hc. subst c. right. exact Eu.
+Qed.
+
+Lemma lstrip_keeps c s : is_space c = false -> has_char c s = true -> has_char c (lstrip s) = true.
+Proof.
+  intros Hs. induction s as [|a r IH]; cbn [lstrip has_char]; [auto|]. intros H.
+  destruct (is_space a) eqn:Ea; [|cbn [has_char]; exact H].
+  apply orb_prop in H. destruct H as [H|H]; [|auto].
+  apply Ascii.eqb_eq in H. subst a. congruence.
+Qed.
+
+Lemma rstrip_keeps c s : is_space c = false -> has_char c s = true -> has_char c (rstrip s) = true.
+Proof.
+  intros Hs. induction s as [|a r IH]; cbn [rstrip has_char]; [auto|]. intros H.
+  apply orb_prop in H. destruct H as [H|H].
+  - apply Ascii.eqb_eq in H. subst a. destruct (rstrip r); [rewrite Hs|]; cbn [has_char];
+      rewrite Ascii.eqb_refl; reflexivity.
+  - specialize (IH H). destruct (rstrip r) as [|x r'] eqn:Er; [discriminate IH|].
+    cbn [has_char] in *. rewrite IH. apply orb_true_r.
+Qed.
+
+Lemma py_int_foreign_char sz c : has_char c sz = true -> int_char c = false -> py_int sz = None.
+Proof.
+  intros Hc Hi. unfold int_char in Hi.
+  repeat (apply orb_false_elim in Hi; destruct Hi as [Hi ?]).
+  unfold py_int. pose proof (rstrip_keeps c _ ltac:(assumption) (lstrip_keeps c sz ltac:(assumption) Hc)) as Ht.
+  destruct (rstrip (lstrip sz)) as [|x r]; [reflexivity|].
+  assert (forall s, has_char c s = true -> int_digits 0 false s = None) as Hn.
+  { intros s Hs. destruct (int_digits 0 false s) eqn:E; [|reflexivity].
+    destruct (int_digits_chars _ _ _ _ E c Hs); congruence. }
+  cbn [has_char] in Ht.
+  destruct (x =? "+")%char eqn:Ep; [|destruct (x =? "-")%char eqn:Em].
+  - apply Ascii.eqb_eq in Ep. subst x. rewrite Ascii.eqb_sym in Ht.
+    replace (c =? "+")%char with false in Ht by congruence. rewrite (Hn r Ht). reflexivity.
+  - apply Ascii.eqb_eq in Em. subst x. rewrite Ascii.eqb_sym in Ht.
+    replace (c =? "-")%char with false in Ht by congruence. rewrite (Hn r Ht). reflexivity.
+  - apply Hn. cbn [has_char]. exact Ht.
+Qed.
+
+Lemma rejects_foreign_size_lemma u body sz c : Forall colon_free [u; body; sz] ->
+  has_char c sz = true -> int_char c = false -> rejected (join_colon [u; body; sz]).
+Proof.
+  intros Hf Hc Hi. apply rejects_noninteger_size_lemma; [assumption|].
+  eapply py_int_foreign_char; eassumption.
+Qed.
